@@ -9,6 +9,7 @@ import re
 from ..astutil import call_name, calls_in, const_str, dotted, guard_atoms, lexical_guards, unparse, walk_local
 from ..cfg import no_exc
 from ..report import Registry, chain, sub
+from ._helpers_rob_h1 import contributing_stmts, nform, str_parts
 
 R = Registry(
     "C51",
@@ -36,6 +37,20 @@ R = Registry(
 def _state_param(fn):
     a = fn.args.args
     return a[1].arg if len(a) > 1 else None
+
+
+def _loop_literals(pm, node, key, stop):
+    """the string literals a subscript key ranges over when it is the variable of an enclosing `for k in (<literals>)`"""
+    if not isinstance(key, ast.Name):
+        return None
+    cur = pm.get(node)
+    while cur is not None and cur is not stop:
+        if isinstance(cur, ast.For) and isinstance(cur.target, ast.Name) and cur.target.id == key.id:
+            if isinstance(cur.iter, (ast.Tuple, ast.List, ast.Set)) and cur.iter.elts and all(const_str(e) is not None for e in cur.iter.elts):
+                return [const_str(e) for e in cur.iter.elts]
+            return None
+        cur = pm.get(cur)
+    return None
 
 
 def _writer_keys(ctx, f):
@@ -86,7 +101,12 @@ def _writer_keys(ctx, f):
                     return set(), set(), False, True
             elif isinstance(tgt, ast.Subscript) and isinstance(tgt.value, ast.Name) and tgt.value.id == var:
                 k = const_str(tgt.slice)
-                if k is None:
+                lits = _loop_literals(pm, n, tgt.slice, fn) if k is None else None
+                if lits is not None:
+                    # `for k in ("a", "b"): if k in src: var[k] = src[k]` == var.update((k, src[k]) for k in (...) if ...):
+                    # like the keys of an update(...), they count as conditionally written
+                    allk.update(lits)
+                elif k is None:
                     is_open = True
                 else:
                     (allk if cond else uncond).add(k)
@@ -253,8 +273,7 @@ def r2(ctx):
         ctx.ok(f"{ST}:manager-after-restores", "no manager call (reported under :manager)", nontrivial=False)
     # ---- ext.serializer
     SER = "ext/serializer.py"
-    w = ctx.func(f"{SER}::Serializer.persistent_id")
-    rd = ctx.func(f"{SER}::Deserializer.persistent_load")
+    w, rd = _ser_functions(ctx)
     m = ctx.index.module(SER)
     pat = None
     for name, vals in m.assigns.items():
@@ -266,22 +285,8 @@ def r2(ctx):
                     pat = None
     ctx.require(isinstance(pat, str), f"{SER}: reader regex literal not found")
     rx = re.compile(pat)
-
-    def template(e):
-        if isinstance(e, ast.Constant) and isinstance(e.value, str):
-            return e.value
-        if isinstance(e, ast.BinOp) and isinstance(e.op, ast.Add):
-            return template(e.left) + template(e.right)
-        if isinstance(e, ast.JoinedStr):
-            return "".join(v.value if isinstance(v, ast.Constant) else "\0" for v in e.values)
-        return "\0"
-    written = {}
-    for n in walk_local(w.node):
-        if isinstance(n, ast.Assign) and isinstance(n.targets[0], ast.Name) and not (isinstance(n.value, ast.Constant) and n.value.value is None):
-            t = template(n.value)
-            if ":" in t and not t.startswith("\0"):
-                tag, rest = t.split(":", 1)
-                written[tag] = (rest.count(":") + 1) if rest else 0
+    # the number of ':'-separated fields behind the tag ("session:" has none)
+    written = {tag: (0 if fields == [[]] else len(fields)) for tag, (_, _, _, fields) in _writer_ids(ctx, w).items()}
     ctx.require(len(written) >= 3, f"{w.key}: persistent-id tags not recognised")
     # reader branches
     branches = {}
@@ -724,23 +729,15 @@ def _mapper_attrs_key_attrs(ctx):
 
 
 def _split_fields(e):
-    """a persistent-id expression as [tag, field expr, ...] (split at the ':' of its literal parts)"""
-    parts = []
-
-    def flat(x):
-        if isinstance(x, ast.BinOp) and isinstance(x.op, ast.Add):
-            flat(x.left)
-            flat(x.right)
-        elif isinstance(x, ast.JoinedStr):
-            for v in x.values:
-                parts.append(v.value if isinstance(v, ast.FormattedValue) else v)
-        else:
-            parts.append(x)
-    flat(e)
+    """a persistent-id expression as [tag, field expr, ...] (split at the ':' of its literal parts); `+`, f-string,
+    `"tag:%s" % (x,)` and `"tag:{}".format(x)` are one idiom (str_parts)"""
+    parts = str_parts(e)
+    if parts is None:
+        parts = [e]
     fields, cur = [], []
     for p in parts:
-        if isinstance(p, ast.Constant) and isinstance(p.value, str):
-            segs = p.value.split(":")
+        if isinstance(p, str):
+            segs = p.split(":")
             for i, sg in enumerate(segs):
                 if i > 0:
                     fields.append(cur)
@@ -751,6 +748,42 @@ def _split_fields(e):
             cur.append(p)
     fields.append(cur)
     return fields
+
+
+_SER_KEEP = {"b64encode", "b64decode"}
+
+
+def _ser_functions(ctx):
+    """(writer, reader) of ext.serializer in normal form: helpers of the module / class are read at their call sites
+    (`self._load_class(arg)` == `pickle.loads(b64decode(arg))`), call-free local aliases are resolved
+    (`annotations = obj._annotations`); the codec functions stay calls (the rule's vocabulary)"""
+    SER = "ext/serializer.py"
+    w = nform(ctx, ctx.func(f"{SER}::Serializer.persistent_id"), keep=_SER_KEEP)
+    rd = nform(ctx, ctx.func(f"{SER}::Deserializer.persistent_load"), keep=_SER_KEEP)
+    return w, rd
+
+
+def _writer_ids(ctx, w):
+    """{tag: (cfg node, id expression, local it is assigned to | None when returned directly, [field parts])} for every
+    persistent id `"<tag>:..."` that persistent_id builds -- assigned to a local or returned on the spot"""
+    g = ctx.cfg(w)
+    out = {}
+    for n in g.nodes:
+        st = n.stmt
+        if n.kind != "stmt" or n.copy:
+            continue
+        if isinstance(st, ast.Assign) and len(st.targets) == 1 and isinstance(st.targets[0], ast.Name):
+            v, var = st.value, st.targets[0].id
+        elif isinstance(st, ast.AnnAssign) and isinstance(st.target, ast.Name) and st.value is not None:
+            v, var = st.value, st.target.id
+        elif isinstance(st, ast.Return) and st.value is not None:
+            v, var = st.value, None
+        else:
+            continue
+        fl = _split_fields(v)
+        if len(fl) >= 2 and len(fl[0]) == 1 and isinstance(fl[0][0], str) and re.fullmatch(r"\w+", fl[0][0]):
+            out[fl[0][0]] = (n, v, var, fl[1:])
+    return out
 
 
 def _is_decode(e, var):
@@ -775,21 +808,15 @@ def _encoded_payload(e):
              "Mapper._configure_property); a field is pickled+b64-encoded iff the reader decodes+unpickles it")
 def r5(ctx):
     SER = "ext/serializer.py"
-    w = ctx.func(f"{SER}::Serializer.persistent_id")
-    rd = ctx.func(f"{SER}::Deserializer.persistent_load")
+    w, rd = _ser_functions(ctx)
     tprops, tform = _tables_key_attrs(ctx)
     keyed_by = {"tables": ("MetaData.tables", tprops), "c": ("Table.c", _dedupe_key_attrs(ctx)),
                 "attrs": ("Mapper.attrs", _mapper_attrs_key_attrs(ctx))}
     # writer: tag -> [field expression parts]
-    written = {}
-    for n in walk_local(w.node):
-        if isinstance(n, ast.Assign) and isinstance(n.targets[0], ast.Name) and not (isinstance(n.value, ast.Constant) and n.value.value is None):
-            fl = _split_fields(n.value)
-            if len(fl) >= 2 and len(fl[0]) == 1 and isinstance(fl[0][0], str):
-                written[fl[0][0]] = fl[1:]
-    ctx.require(len(written) >= 3, f"{w.key}: persistent-id expressions not recognised")
     gw = ctx.cfg(w)
-    gw_assign_nodes = [n for n in gw.nodes if n.kind == "stmt" and isinstance(n.stmt, ast.Assign)]
+    wids = _writer_ids(ctx, w)
+    written = {tag: fields for tag, (_, _, _, fields) in wids.items()}
+    ctx.require(len(written) >= 3, f"{w.key}: persistent-id expressions not recognised")
     # reader: the payload variable and the branches
     payload = None
     for n in walk_local(rd.node):
@@ -847,7 +874,7 @@ def r5(ctx):
                             # the key attribute was derived for class Table: its owner must be known to be one
                             tcls = ctx.index.cls("sql/schema.py::Table")
                             owner = unparse(wexpr.value)
-                            anode = [a for a in gw_assign_nodes if any(x is wf[0] for x in ast.walk(a.stmt))]
+                            anode = [wids[tag][0]] if any(x is wf[0] for x in ast.walk(wids[tag][1])) else []
                             atoms = set(guard_atoms(gw.edge_guards(anode[0].id))) if anode else set()
                             known = False
                             for a, pol in atoms:
@@ -882,24 +909,21 @@ def r5(ctx):
              "from the regex group that holds it")
 def r6(ctx):
     SER = "ext/serializer.py"
-    w = ctx.func(f"{SER}::Serializer.persistent_id")
+    w, _ = _ser_functions(ctx)
+    # the reader is judged as written: `return self.get_engine()` hands out what a helper resolved -- what that helper
+    # does inside is not this rule's business (the codec helpers are followed by C51-R5)
     rd = ctx.func(f"{SER}::Deserializer.persistent_load")
     gw, gr = ctx.cfg(w), ctx.cfg(rd)
     wparams = [a.arg for a in w.node.args.args]
     ctx.require(len(wparams) == 2, f"{w.key}: expected persistent_id(self, obj)")
     obj = wparams[1]
     # ---- writer
-    assigns = {}
-    for n in gw.nodes:
-        st = n.stmt
-        if n.kind == "stmt" and isinstance(st, ast.Assign) and isinstance(st.targets[0], ast.Name):
-            fl = _split_fields(st.value)
-            if len(fl) >= 2 and len(fl[0]) == 1 and isinstance(fl[0][0], str):
-                assigns[fl[0][0]] = n
+    wids = _writer_ids(ctx, w)
+    assigns = {tag: v[0] for tag, v in wids.items()}
     ctx.require(len(assigns) >= 3, f"{w.key}: persistent-id assignments not recognised")
     rets = [n for n in gw.nodes if n.kind == "stmt" and isinstance(n.stmt, ast.Return)]
     for tag, n in sorted(assigns.items()):
-        idvar = n.stmt.targets[0].id
+        idvar = wids[tag][2]
         atoms = set(guard_atoms(gw.edge_guards(n.id)))
         probs = []
         pos = [a for a, p in atoms if p and re.fullmatch(rf"isinstance\({re.escape(obj)}, [\w.]+\)", a)]
@@ -907,14 +931,22 @@ def r6(ctx):
             probs.append(f"the `{tag}:` id is not written under a positive isinstance({obj}, <class>) outcome "
                          f"(dominating outcomes: {sorted(a + ('' if p else ' is false') for a, p in atoms)[:4]}): objects of other "
                          f"kinds would be replaced by this id")
-        for x in ast.walk(n.stmt.value):
-            if isinstance(x, ast.Subscript) and const_str(x.slice) is not None:
-                memb = f"{const_str(x.slice)!r} in {unparse(x.value)}"
-                tested = any(isinstance(c, ast.Compare) and len(c.ops) == 1 and isinstance(c.ops[0], (ast.In, ast.NotIn))
-                             and const_str(c.left) == const_str(x.slice) and unparse(c.comparators[0]) == unparse(x.value)
-                             for c in ast.walk(w.node))
-                if tested and (memb, True) not in atoms:
-                    probs.append(f"`{unparse(x)}` is read where `{memb}` is not known to hold")
+        # a literal key that is tested somewhere in the writer must be KNOWN to be present where it is subscripted -- in
+        # the id expression itself or in the statement that computes a local the id is built from
+        for cst in contributing_stmts(w.node, n.stmt):
+            cn = [set(guard_atoms(gw.edge_guards(i))) for i in gw.nodes_for(cst)]
+            catoms = atoms if cst is n.stmt else (set.intersection(*cn) if cn else set())
+            for x in ast.walk(cst.value):
+                if isinstance(x, ast.Subscript) and const_str(x.slice) is not None:
+                    memb = f"{const_str(x.slice)!r} in {unparse(x.value)}"
+                    tested = any(isinstance(c, ast.Compare) and len(c.ops) == 1 and isinstance(c.ops[0], (ast.In, ast.NotIn))
+                                 and const_str(c.left) == const_str(x.slice) and unparse(c.comparators[0]) == unparse(x.value)
+                                 for c in ast.walk(w.node))
+                    if tested and (memb, True) not in catoms:
+                        probs.append(f"`{unparse(x)}` is read where `{memb}` is not known to hold")
+        if idvar is None:
+            ctx.check(not probs, f"{SER}::tag:{tag}:writer-guard", "; ".join(probs), f"under {pos[:1]}, returned directly", w.loc)
+            continue
         after = gw.reachable([n.id], edge_ok=no_exc, include_starts=False)
         bad_ret = [r for r in rets if r.id in after and not (isinstance(r.stmt.value, ast.Name) and r.stmt.value.id == idvar)]
         if bad_ret or not [r for r in rets if r.id in after]:
